@@ -7,7 +7,8 @@ from symx.api import harness
 from harness.common import mk_element, fake_ctx, XSI_NS
 
 from spyne import Application, Service, rpc, ComplexModel
-from spyne.model.primitive import Integer, Unicode, Decimal, DateTime, Date, Time, Boolean, Duration
+from spyne.model.primitive import (Integer, Unicode, Decimal, DateTime, Date, Time, Boolean, Duration, Integer8, Integer16,
+    Integer32, Integer64, UnsignedInteger8, UnsignedInteger32)
 from spyne.model.complex import Array, XmlAttribute, XmlData
 from spyne.model.fault import Fault
 from spyne.protocol.xml import XmlDocument
@@ -212,7 +213,10 @@ def route_request(sx, p):
 
 
 # ---------------------------------------------------------------- leaf codecs through each protocol's tables
-LEAF = [('Integer', Integer), ('Decimal', Decimal), ('Boolean', Boolean), ('Date', Date), ('Time', Time),
+BOUNDED = {'Integer8': (Integer8, -2 ** 7, 2 ** 7 - 1), 'Integer16': (Integer16, -2 ** 15, 2 ** 15 - 1),
+           'Integer32': (Integer32, -2 ** 31, 2 ** 31 - 1), 'Integer64': (Integer64, -2 ** 63, 2 ** 63 - 1),
+           'UnsignedInteger8': (UnsignedInteger8, 0, 2 ** 8 - 1), 'UnsignedInteger32': (UnsignedInteger32, 0, 2 ** 32 - 1)}
+LEAF = [(k, v[0]) for k, v in sorted(BOUNDED.items())] + [('Integer', Integer), ('Decimal', Decimal), ('Boolean', Boolean), ('Date', Date), ('Time', Time),
         ('DateTime naive', DateTime), ('DateTime offset', DateTime), ('Duration', Duration), ('Unicode', Unicode)]
 XCTX = {}
 
@@ -229,7 +233,9 @@ def leaf_roundtrip(sx, p):
     prot = app.in_protocol
     ctx = XCTX.setdefault(pname, fake_ctx(app))
     label, T = LEAF[i]
-    if label == 'Integer':
+    if label in BOUNDED:
+        v = sx.int('v', BOUNDED[label][1], BOUNDED[label][2])       # every value of the fixed-width type
+    elif label == 'Integer':
         v = sx.int('v', -10 ** 12, 10 ** 12)
     elif label == 'Decimal':
         v = sx.decimal('v', 4, -2)
@@ -255,3 +261,113 @@ def leaf_roundtrip(sx, p):
     if label == 'Duration':
         return sx.eq(sx.td_microseconds(back), sx.td_microseconds(v))
     return sx.eq(back, v)
+
+
+# ---------------------------------------------------------------- SOAP headers
+class Session(ComplexModel):
+    __namespace__ = TNS
+    token = Unicode
+    seq = Integer
+
+
+class Trace(ComplexModel):
+    __namespace__ = TNS
+    tid = Integer
+
+
+class Tenant(ComplexModel):
+    __namespace__ = TNS
+    name = Unicode
+
+
+HCAP = {}
+
+
+class HSvc(Service):
+    __in_header__ = (Session, Trace, Tenant)
+
+    @rpc(Integer, _returns=Integer)
+    def h(ctx, a):
+        HCAP['hdr'] = ctx.in_header
+        HCAP['a'] = a
+        return a
+
+
+HAPPS = {}
+
+
+@harness('C01', params=[(p, v) for p in ('Soap11', 'Soap12') for v in (None, 'soft')], label=lambda p: '%s validator=%s' % p,
+         functions=['spyne.protocol.soap.soap11.Soap11.deserialize', 'spyne.protocol.soap.soap11.Soap11.decompose_incoming_envelope',
+                    'spyne.protocol.xml.XmlDocument.complex_from_element'],
+         bounds={'headers': 'three declared header classes; every subset present, in either document order; leaf values symbolic'})
+def soap_headers(sx, p):
+    """every SOAP header element that is sent reaches ctx.in_header at the position of its declared class,
+    whichever other headers are present and in whatever order; absent headers are None"""
+    pname, validator = p
+    if p not in HAPPS:
+        P = PROTS[pname]
+        app = Application([HSvc], TNS, in_protocol=P(validator=validator), out_protocol=P())
+        HAPPS[p] = (app, ServerBase(app))
+    app, server = HAPPS[p]
+    prot = app.in_protocol
+    present = [sx.choose('has_%s' % n, [1, 0]) for n in ('Session', 'Trace', 'Tenant')]
+    order = sx.choose('order', ['declared', 'reversed'])
+    tok, seq, tid, ten = sx.text('tok', 2, alphabet='ab'), sx.int('seq', 0, 99), sx.int('tid', 0, 99), sx.text('ten', 1, alphabet='xy')
+    T = lambda v: prot.to_unicode(Integer, v)
+    hs = []
+    if present[0]:
+        hs.append(el(sx, 'Session', children=[el(sx, 'token', tok), el(sx, 'seq', T(seq))]))
+    if present[1]:
+        hs.append(el(sx, 'Trace', children=[el(sx, 'tid', T(tid))]))
+    if present[2]:
+        hs.append(el(sx, 'Tenant', children=[el(sx, 'name', ten)]))
+    if order == 'reversed':
+        hs.reverse()
+    a = sx.int('a', 0, 9)
+    body = el(sx, 'h', children=[el(sx, 'a', T(a))])
+    HCAP.clear()
+    if sx.symbolic:
+        ctx = MethodContext(server, MethodContext.SERVER)
+        ctx.in_document = body
+        ctx.in_body_doc = body
+        ctx.in_header_doc = hs if hs else None
+        ctx.method_request_string = body.tag
+        ctx, = prot.generate_method_contexts(ctx)
+        prot.deserialize(ctx, prot.REQUEST)
+        hdr, ga = ctx.in_header, ctx.in_object[0] if ctx.in_object else None
+    else:
+        from lxml import etree
+        env = SOAP_ENV[pname]
+        doc = etree.Element('{%s}Envelope' % env, nsmap={'e': env})
+        if hs:
+            he = etree.SubElement(doc, '{%s}Header' % env)
+            for x in hs:
+                he.append(x)
+        etree.SubElement(doc, '{%s}Body' % env).append(body)
+        ctx = MethodContext(server, MethodContext.SERVER)
+        ctx.in_string = [etree.tostring(doc)]
+        ctx, = server.generate_contexts(ctx)
+        if ctx.in_error is not None:
+            return False
+        server.get_in_object(ctx)
+        if ctx.in_error is not None:
+            return False
+        server.get_out_object(ctx)
+        if ctx.out_error is not None:
+            return False
+        hdr, ga = HCAP.get('hdr'), HCAP.get('a')
+    ok = [sx.eq(ga, a)]
+    if not any(present):
+        ok.append(hdr is None or all(x is None for x in hdr))
+        return sx.And(*ok)
+    if hdr is None or len(hdr) != 3:
+        return False
+    s_, t_, n_ = hdr
+    ok.append((s_ is not None) == bool(present[0]) and (t_ is not None) == bool(present[1]) and (n_ is not None) == bool(present[2]))
+    if present[0] and s_ is not None:
+        ok += [type(s_).__name__ == 'Session', sx.eq(s_.token, tok), sx.eq(s_.seq, seq)]
+    if present[1] and t_ is not None:
+        ok += [type(t_).__name__ == 'Trace', sx.eq(t_.tid, tid)]
+    if present[2] and n_ is not None:
+        ok += [type(n_).__name__ == 'Tenant', sx.eq(n_.name, ten)]
+    return sx.And(*ok)
